@@ -1,6 +1,6 @@
 """C03 - middleware, hooks and responder run in the documented stack order, once each; ASGI lifespan order."""
 PROP = 'C03'
-LEAN_MODULES = ['FalconModel.PipelineProofs', 'FalconModel.PipelineSpec', 'FalconModel.HooksLifespanProofs']
+LEAN_MODULES = ['FalconModel.PipelineProofs', 'FalconModel.PipelineSpec', 'FalconModel.PipelineErrProofs', 'FalconModel.HooksLifespanProofs']
 DRIVERS = ['pldriver', 'hkdriver']
 THEOREMS = [
     # falcon/app.py + falcon/asgi/app.py __call__, falcon/app_helpers.py prepare_middleware (model Pl.run)
@@ -10,6 +10,15 @@ THEOREMS = [
     # the WHOLE call trace equals the documented discipline (FalconModel/PipelineSpec.lean)
     'Pl.run_eq_spec', 'Pl.respLoop_eq_spec', 'Pl.withFlags_flag', 'Pl.reqDep_topdown', 'Pl.reqDep_done', 'Pl.reqIndep_flags', 'Pl.rsrcLoop_flags', 'Pl.stopAct_ne_ret',
     'Pl.reqIndep_topdown', 'Pl.rsrcLoop_topdown', 'Pl.first_resp_flag',
+    # the refinement with error handlers, escapes and the final status (model Pe.run, FalconModel/PipelineErr.lean):
+    # falcon/app.py + falcon/asgi/app.py __call__ with every `except` block, and _handle_exception
+    'Pe.run_refines_Pl', 'Pe.run_prefix_Pl', 'Pe.run_eq_specTrace', 'Pe.run_refines_Pl_of_benign', 'Pe.benign_not_escaped', 'Pe.run_abs', 'Pe.tries_abs',
+    'Pe.reqIndep_abs', 'Pe.reqDep_abs', 'Pe.rsrcLoop_abs', 'Pe.respLoop_abs',
+    'Pe.handler_called_once_per_raise_at_its_site', 'Pe.handle_once', 'Pe.handle_escapes', 'Pe.labels_correct',
+    'Pe.unhandled_propagates_and_stops', 'Pe.escape_iff', 'Pe.run_stops', 'Pe.respLoop_stops',
+    'Pe.succeeded_iff_nothing_raised', 'Pe.run_flags', 'Pe.respLoop_flags',
+    'Pe.handled_raise_continues_response_phase', 'Pe.resp_call_at', 'Pe.respLoop_call_at', 'Pe.tries_order_independent',
+    'Pe.run_decomp', 'Pe.tries_shape', 'Pe.handle_agrees_Eh',
     # falcon/hooks.py (model Hk.wrap) and the lifespan loop of falcon/asgi/app.py (model Hk.lifespan)
     'Hk.runUntil_snoc', 'Hk.wrap_eq_spec', 'Hk.before_outermost_first', 'Hk.after_innermost_first', 'Hk.hook_raise_skips_rest',
     'Hk.startLoop_eq', 'Hk.stopLoop_eq', 'Hk.lifespan_eq_spec', 'Hk.startup_in_order', 'Hk.shutdown_in_reverse',
@@ -23,6 +32,17 @@ STATEMENTS = {
     'Pl.reqIndep_topdown': 'the independent request loop calls the process_request methods in registration order and stops right after the first one that completes or raises',
     'Pl.rsrcLoop_topdown': 'the resource loop calls the process_resource methods in registration order and stops right after the first one that completes or raises',
     'Pl.first_resp_flag': 'if the response loop starts with success flag s, the first process_response call it makes carries s (the flag computed from "nothing raised so far")',
+    'Pe.run_refines_Pl': 'the refined model Pe.run transcribes __call__ with its three kinds of except blocks and _handle_exception (actions: return / complete / raise HTTPError / raise HTTPStatus / raise an application error whose handler sets the response, is falcon\'s default, raises HTTPError, raises HTTPStatus, raises a plain exception, or does not exist); whenever no exception leaves __call__, its calls - handler invocations and falcon\'s own 404/405 responder left out, every raise mapped to the single raise_ of Pl - are exactly Pl.run of the abstracted configuration, so Pl.run_eq_spec and every Pl theorem describe them',
+    'Pe.run_prefix_Pl': 'and when an exception does leave __call__ the calls made are an initial part of Pl.run: nothing out of order, nothing twice',
+    'Pe.run_refines_Pl_of_benign': 'if no method of the configuration raises an error without handler or with a handler raising a plain exception, the run never escapes, produces a response, and its calls equal Pl.run',
+    'Pe.handler_called_once_per_raise_at_its_site': 'the whole trace equals its calls with, right after each call, what _handle_exception invokes for what that call raised: exactly one handler event carrying that error and that site if the call raised an error for which a handler exists (Pe.handle_once), nothing otherwise - so no handler runs without a raise, none runs twice, none runs late',
+    'Pe.labels_correct': 'every call in the trace is labelled with the action the configuration assigns to that very method (component i\'s process_request/resource/response, the application responder, falcon\'s 404/405 responder)',
+    'Pe.unhandled_propagates_and_stops': 'if a call raises an error that has no handler, or whose handler raises a plain exception, then after it the trace contains only that handler\'s invocation (if there is a handler) and ends - no further process_response, no responder - and the outcome is `escaped` (nothing is sent)',
+    'Pe.escape_iff': 'the request escapes iff some call that was actually made raised an error that has no handler or whose handler raised a plain exception',
+    'Pe.succeeded_iff_nothing_raised': 'at whatever position of the trace a process_response call stands, its req_succeeded argument is true iff no earlier call of the trace raised (request/resource method, responder, falcon\'s 404/405 responder, an earlier process_response), handled or not',
+    'Pe.resp_call_at': 'the k-th method of the response stack is called - with req_succeeded true iff nothing raised before it - provided the earlier phases did not escape and none of the first k process_response methods raises an escaping error; earlier ones that raise handled errors do not stop the loop',
+    'Pe.handled_raise_continues_response_phase': 'if the k-th process_response raises an error that is handled (handler exists and raises at most HTTPError/HTTPStatus) the (k+1)-th method of the stack is still called, with req_succeeded = False',
+    'Pe.handle_agrees_Eh': 'Pe.handle and the C04 model Eh.handle of _handle_exception agree on whether the exception leaves __call__',
     'Hk.wrap_eq_spec': 'for every stacking of before/after decorators (outermost first) and every action per hook: the calls made by the wrapped responder are the before hooks outermost-first, the responder, the after hooks innermost-first, cut right after the first raise',
     'Hk.before_outermost_first': 'the before hooks that run are a prefix of the decorator list order',
     'Hk.after_innermost_first': 'the after hooks that run are a prefix of the reversed decorator list order',
@@ -34,25 +54,29 @@ STATEMENTS = {
 }
 TRUSTED = [
     'inspect-based method discovery of falcon.util.get_bound_method / hooks (exercised, not modelled)',
-    'the mapping of the harness\'s raising actions (HTTPError, HTTPStatus, app error with a handler, handler re-raising HTTPError/HTTPStatus) to the model\'s single `raise_` action',
+    'the mapping of the harness\'s raising actions to the single `raise_` action of Pl.run in the first correspondence (proved sound for the model side: Pe.run_refines_Pl); the second correspondence (Pe.run) uses the full alphabet',
+    'falcon\'s own default error handlers and its 404/405 responders cannot be observed through the public API: the model\'s events for them are not compared, their effect is compared through the final status (and by C04)',
+    'the hook-wrapped responder is one responder action for Pl.run / Pe.run (what its first raising part does, else complete, else return); the hook order itself is tied by Hk.wrap',
 ]
 ASSUMPTIONS = [
-    'exceptions raised by components derive from Exception (BaseException-only raises are not caught by falcon by design)',
-    'an error handler that itself raises something other than HTTPError/HTTPStatus propagates to the server and ends the sequence (falcon documents only HTTPError/HTTPStatus as raisable from handlers); such cases are oracle-only',
+    'an exception that no handler takes - a BaseException-only raise (not caught by falcon by design), or whatever an error handler raises other than HTTPError/HTTPStatus (falcon documents only these as raisable from handlers) - propagates to the server and ends the sequence: the "once each" part of the property is read as "up to that point" (Pe.run_prefix_Pl, Pe.unhandled_propagates_and_stops)',
+    'error handlers do not set resp.complete and components either return, complete or raise (not complete-then-raise)',
     'hooks are applied to resource responders (falcon.before/after do not apply to sinks)',
 ]
 RULE = ('stacks of 0..5 middleware components, each implementing any non-empty subset of process_request/process_resource/process_response '
         '(ASGI: plain coroutine names or *_async next to a sync decoy), x independent_middleware in {True, False} x target in '
         '{route, route without the method (405), sink, unrouted (404)} x 0..3 stacked before/after hooks (method- and class-level) x an action per call site '
         'from {return, set resp.complete, raise HTTPError, raise HTTPStatus, raise app error with custom handler, with only the default handler, '
-        'custom handler re-raising HTTPError / HTTPStatus / a plain exception}; enumerated: every stack of <= 3 (quick) / <= 4 (thorough) components (the largest stacks with 4 of the 8 fault kinds) x every '
+        'custom handler re-raising HTTPError / HTTPStatus / a plain exception, raise a BaseException-only error (no handler at all)}; enumerated: every stack of <= 3 (quick) / <= 4 (thorough) components (the largest stacks with 4 of the 9 fault kinds) x every '
         'single-fault placement, and every stack of <= 1 (quick) / <= 2 (thorough) components x every double placement of {complete, HTTPError, handled app error, handler raising}, '
         'each x both modes x {route, unrouted} (the largest stacks routed only; 4-component stacks alternate between WSGI and ASGI) x WSGI+ASGI; plus random stacks with 0..4 faults; plus ASGI lifespan runs over 0..5 components with any subset '
         'of process_startup/process_shutdown and a failing one anywhere. non-trivial = at least one middleware/hook/lifespan call was made; '
         'distinct = distinct (stack kind, configuration, action assignment)')
-PARTIAL = ('Proved in Lean: the whole call trace of the model equals the documented discipline (Pl.run_eq_spec) in both middleware modes, the hook order and the lifespan order. '
-           'Not modelled in Lean: error-handler invocations inside the trace and the "handler raised a plain exception -> propagates" path (oracle-only); the three actions abstract '
-           'HTTPError / HTTPStatus / handled application errors into one "raise" (their different status codes are judged by the oracle and by C04).')
+PARTIAL = ('Proved in Lean: the whole call trace of the model equals the documented discipline (Pl.run_eq_spec) in both middleware modes, the hook order and the lifespan order; '
+           'and for the refined model Pe.run (ten actions, handler invocations in the trace, outcome responded(status) | escaped): refinement to Pl.run, one handler call per raise at its site, '
+           'continuation of the response loop after handled raises, propagation-and-stop for unhandled ones, the success flag at every process_response position, escape iff. '
+           'Not modelled in Lean: the before/after hooks inside Pe.run (one composite responder action; their order is Hk.wrap), handlers that mark the response complete, '
+           'and what happens after the response loop (body rendering and its own except block: C05). Default-handler invocations are model events that the correspondence can only check through the final status.')
 JOBS = {'quick': 12, 'thorough': 16}
 
 RAISES = {'http': 403, 'status': 202, 'app_h': 418, 'app_d': 500, 'app_hh': 409, 'app_hs': 299, 'app_he': None, 'base': None}
@@ -375,7 +399,7 @@ def _execute(ctx, sess, hsess, case, via_testing=False, xsess=None):
     if trace != exp_tr:
         what = f'call trace {trace} differs from the documented discipline {exp_tr}'
     elif bool(r.escaped) != exp_esc:
-        what = f'exception {"escaped to the server: %r" % (r.escaped,) if r.escaped else "did not reach the server although an error handler raised it"}'
+        what = f'exception {"escaped to the server: %r" % (r.escaped,) if r.escaped else "did not reach the server although no handler took it (an error handler raised it, or none exists for it)"}'
     elif not exp_esc and r.status != exp_status:
         what = f'final status {r.status}, expected {exp_status}'
     elif exp_esc and r.events:
@@ -596,7 +620,8 @@ def _lifespan(ctx):
     sess.finish()
 
 
-LEVEL_TEXT = ('Machine-checked proofs (Lean 4) about a transcription of App.__call__ (shared by WSGI and ASGI), falcon.hooks and the lifespan loop: response methods run exactly once '
+LEVEL_TEXT = ('Machine-checked proofs (Lean 4) about a transcription of App.__call__ (shared by WSGI and ASGI) - first with one abstract raise (Pl.run), then refined with _handle_exception, '
+              'error-handler invocations, exceptions that leave __call__ and the final status (Pe.run, proved to refine Pl.run) - falcon.hooks and the lifespan loop: response methods run exactly once '
               'each, bottom-up, in both middleware modes for every stack and fault placement; request/resource loops are top-down and stop at the first completion or raise; '
               'before hooks run outermost-first, after hooks innermost-first, a raise skips the rest; startup in order, shutdown in reverse, first failure reported and final. '
               'The model is tied to falcon/app.py, falcon/asgi/app.py, falcon/app_helpers.py and falcon/hooks.py on every run by a differential correspondence over generated '
